@@ -931,6 +931,20 @@ class CallMixin:
             return AV(types=frozenset({"classobj"}), deps=deps)
         if name in ("getattr", "hasattr", "callable", "issubclass"):
             if name == "getattr":
+                # getattr(obj, "name"[, default]) with a constant name is the attribute access obj.name (joined with the
+                # default, which is what comes back when the attribute is missing)
+                if len(args) >= 2 and args[1].has_const() and isinstance(args[1].const, str):
+                    mark = frame.n_unresolved
+                    emark = len(frame.events)
+                    got = self.get_attr(args[0], args[1].const, n, st, frame, call=True)
+                    if len(args) >= 3 and frame.n_unresolved > mark:
+                        # the attribute may be missing on some receiver class: that is what the default is for
+                        frame.n_unresolved = mark
+                        del frame.events[emark:]
+                        return join(AV(types=None, deps=deps), args[2])
+                    if len(args) >= 3 and args[2].has_const() and args[2].const is None and got.types is not None:
+                        return replace(got, types=got.types | {"None"}, const=NOCONST)     # keeps the callable
+                    return join(got, args[2]) if len(args) >= 3 else got
                 self.unresolved(frame, st, n, "getattr")
                 return AV(types=None, deps=deps)
             return AV(types=frozenset({"bool"}), deps=deps)
